@@ -9,11 +9,12 @@ Local Open Scope N_scope.
 Section Step.
   Variable hash : header -> bytes.
   Variable r0 g0 : N.
+  Variable U : header -> Prop.
   Notation idx_wf := (idx_wf hash r0).
   Notation wf_hdr := (wf_hdr r0).
   Notation key := (key hash).
   Notation Stored := (Stored hash).
-  Notation Inv := (Inv hash r0 g0).
+  Notation Inv := (Inv hash r0 g0 U).
   Notation nth_anc := (nth_anc).
 
   (** * The index after [update] wrote the new header *)
@@ -165,8 +166,8 @@ Section Step.
     - apply IH. lia.
   Qed.
 
-  Lemma deadpath_store ix h k D : DeadPath hash g0 ix k D -> (forall d, In d D -> key h <> key d) ->
-    DeadPath hash g0 (iset (key h) h ix) k D.
+  Lemma deadpath_store ix h k D : DeadPath hash g0 U ix k D -> (forall d, In d D -> key h <> key d) ->
+    DeadPath hash g0 U (iset (key h) h ix) k D.
   Proof.
     revert k; induction D as [|d D IH]; intros k H N; [exact H|].
     cbn in *. destruct H as [H1 [H2 [H3 H4]]]. split; [exact H1|]. split.
@@ -184,6 +185,7 @@ Section Step.
     Variable h : header.
     Hypothesis I1 : Inv s1 L D.
     Hypothesis Wh : wf_hdr h.
+    Hypothesis HU : U h.
     Hypothesis Hg0 : g0 <= h_num h.
     Hypothesis Hfresh : forall a, Stored (idx s1) a -> h_num a = h_num h ->
                                   to_hash (h_root a) = to_hash (h_root h) -> key a = key h.
@@ -212,10 +214,10 @@ Section Step.
 
     Lemma rebuild_inv : Inv s' L' D /\ low h L' = low old L.
     Proof.
-      pose proof (inv_wf _ _ _ _ _ _ I1) as WF1. fold ix1 in WF1.
+      pose proof (inv_wf _ _ _ _ _ _ _ I1) as WF1. fold ix1 in WF1.
       assert (WF2 : idx_wf ix2) by (apply store_wf; assumption).
-      destruct (inv_head_wf _ _ _ _ _ _ I1) as [_ [Hold _]]. fold old in Hold.
-      pose proof (inv_main _ _ _ _ _ _ I1) as M1. fold ix1 old in M1.
+      destruct (inv_head_wf _ _ _ _ _ _ _ I1) as [_ [Hold _]]. fold old in Hold.
+      pose proof (inv_main _ _ _ _ _ _ _ I1) as M1. fold ix1 old in M1.
       destruct Wh as [Hrev [Hh Hgl]].
       assert (S2h : Stored ix2 h) by apply store_stored_h.
       destruct (ancs_nth _ _ _ _ A1) as [LenN NthN]. fold Nn in LenN, NthN.
@@ -264,10 +266,10 @@ Section Step.
       - exact S2h.
       - (* inv_cdom *) intros r k c E. rewrite LowEq. destruct (K3 _ _ _ E) as [[-> [a [Ia ->]]]|E1].
         + split; [reflexivity|]. destruct (NumN _ Ia) as [[Q _] _]. lia.
-        + exact (inv_cdom _ _ _ _ _ _ I1 _ _ _ E1).
+        + exact (inv_cdom _ _ _ _ _ _ _ I1 _ _ _ E1).
       - (* inv_cmain *) intros a Ia. unfold L' in Ia. apply in_app_or in Ia. destruct Ia as [Ia|Ia]; [apply K1; exact Ia|].
         apply In_nth_error in Ia. destruct Ia as [u Eu]. destruct (Tail _ _ Eu) as [InL [Lt _]].
-        rewrite K2; [apply (inv_cmain _ _ _ _ _ _ I1); exact InL|].
+        rewrite K2; [apply (inv_cmain _ _ _ _ _ _ _ I1); exact InL|].
         intros b Ib. destruct (NumN _ Ib) as [[Q _] _]. lia.
       - exact K4.
       - (* inv_closure *) intros a Sa Ha. rewrite LowEq in Ha.
@@ -277,7 +279,7 @@ Section Step.
           pose proof (M2 1%nat) as Q. cbn [EthChain.nth_anc] in Q.
           destruct (parent_of ix2 h); [discriminate|].
           symmetry in Q. apply nth_error_None in Q. lia.
-        + pose proof (inv_closure _ _ _ _ _ _ I1 a Sa1 Ha) as C. fold ix1 in C.
+        + pose proof (inv_closure _ _ _ _ _ _ _ I1 a Sa1 Ha) as C. fold ix1 in C.
           unfold parent_of in *. destruct (iget _ ix1) as [q|] eqn:Eq; [|congruence].
           unfold ix2. rewrite (store_mono ix1 h Hnoalias _ _ Eq). discriminate.
       - (* inv_rmain *) intros a Sa Ha. rewrite LowEq in Ha. unfold rm2, rset, rget. rewrite rget_rset.
@@ -285,10 +287,12 @@ Section Step.
         + rewrite hkey_eqb_refl. reflexivity.
         + destruct (hkey_eqb_spec (to_hash (h_root a), h_num a) (to_hash (h_root h), h_num h)) as [K|_].
           * inversion K as [[Kr Kn]]. rewrite (Hfresh a Sa1 Kn Kr). reflexivity.
-          * exact (inv_rmain _ _ _ _ _ _ I1 a Sa1 Ha).
+          * exact (inv_rmain _ _ _ _ _ _ _ I1 a Sa1 Ha).
       - (* inv_low *) intros a Sa. destruct (store_inv_stored _ _ _ Sa) as [->|Sa1]; [exact Hg0|].
-        exact (inv_low _ _ _ _ _ _ I1 a Sa1).
-      - (* inv_dead *) rewrite BotEq. apply deadpath_store; [exact (inv_dead _ _ _ _ _ _ I1) | exact Hdead].
+        exact (inv_low _ _ _ _ _ _ _ I1 a Sa1).
+      - (* inv_univ *) intros a Sa. destruct (store_inv_stored _ _ _ Sa) as [->|Sa1]; [exact HU|].
+        exact (inv_univ _ _ _ _ _ _ _ I1 a Sa1).
+      - (* inv_dead *) rewrite BotEq. apply deadpath_store; [exact (inv_dead _ _ _ _ _ _ _ I1) | exact Hdead].
     Qed.
   End Rebuild.
 
@@ -346,20 +350,20 @@ Section Step.
       iget (key y) (idx s2) = Some y.
     Proof.
       intros Lt Ey Ny. destruct Wh as [Hrev [Hh Hgl]].
-      pose proof (inv_wf _ _ _ _ _ _ I1) as WF1. pose proof (inv_main _ _ _ _ _ _ I1) as M1.
-      destruct (inv_head_wf _ _ _ _ _ _ I1) as [_ [Hold _]].
+      pose proof (inv_wf _ _ _ _ _ _ _ I1) as WF1. pose proof (inv_main _ _ _ _ _ _ _ I1) as M1.
+      destruct (inv_head_wf _ _ _ _ _ _ _ I1) as [_ [Hold _]].
       assert (Iy : In y L) by (eapply nth_error_In; exact Ey).
-      pose proof (main_stored _ _ _ _ _ WF1 Hold M1 (inv_head _ _ _ _ _ _ I1) _ Iy) as Sy.
+      pose proof (main_stored _ _ _ _ _ WF1 Hold M1 (inv_head _ _ _ _ _ _ _ I1) _ Iy) as Sy.
       destruct (main_in_range _ _ _ _ _ WF1 Hold M1 _ Iy) as [[Ly _] _].
       cbn [s2 store_header cons rmain idx]. change (hash h, h_num h) with (key h). rewrite Hrev. split.
-      - rewrite <- Ny. exact (inv_cmain _ _ _ _ _ _ I1 _ Iy).
+      - rewrite <- Ny. exact (inv_cmain _ _ _ _ _ _ _ I1 _ Iy).
       - assert (Ky : key y = key h -> y = h).
         { intro K. apply Hnoalias. rewrite <- K. exact Sy. }
         split.
         + unfold rset, rget. rewrite rget_rset.
           destruct (hkey_eqb_spec (to_hash (h_root y), h_num h) (to_hash (h_root h), h_num h)) as [K|_].
           * inversion K as [Kr]. rewrite (Hfresh y Sy Ny Kr). reflexivity.
-          * rewrite <- Ny. exact (inv_rmain _ _ _ _ _ _ I1 y Sy Ly).
+          * rewrite <- Ny. exact (inv_rmain _ _ _ _ _ _ _ I1 y Sy Ly).
         + rewrite iget_store. destruct (hkey_eqb_spec (key y) (key h)) as [K|_]; [rewrite (Ky K); reflexivity | exact Sy].
     Qed.
 
@@ -370,10 +374,10 @@ Section Step.
         h_parent y = h_parent new2 /\ c3 = fold_left (setc r0) (rev (ancs ix2 h J)) (cons s1).
     Proof.
       intro R. destruct Wh as [Hrev [Hh Hgl]].
-      pose proof (inv_wf _ _ _ _ _ _ I1) as WF1. fold ix1 in WF1.
+      pose proof (inv_wf _ _ _ _ _ _ _ I1) as WF1. fold ix1 in WF1.
       assert (WF2 : idx_wf ix2) by (apply store_wf; [exact WF1 | exact Wh]).
-      pose proof (inv_main _ _ _ _ _ _ I1) as M1. fold ix1 old in M1.
-      destruct (inv_head_wf _ _ _ _ _ _ I1) as [_ [Hold _]]. fold old in Hold.
+      pose proof (inv_main _ _ _ _ _ _ _ I1) as M1. fold ix1 old in M1.
+      destruct (inv_head_wf _ _ _ _ _ _ _ I1) as [_ [Hold _]]. fold old in Hold.
       assert (S2h : Stored ix2 h) by apply store_stored_h.
       assert (H64 : h_num h < two64) by (pose proof two63_lt_two64; lia).
       unfold restrict_chain, restrict_chain_gen in R.
@@ -392,7 +396,7 @@ Section Step.
       - (* the head is higher: start from the main-chain header at the new header's height *)
         destruct (cget (h_rev h, h_num h) (cons s2)) as [c|] eqn:E1; [|discriminate].
         assert (LowH : low old L <= h_num h).
-        { cbn [s2 store_header cons] in E1. rewrite Hrev in E1. exact (proj2 (inv_cdom _ _ _ _ _ _ I1 _ _ _ E1)). }
+        { cbn [s2 store_header cons] in E1. rewrite Hrev in E1. exact (proj2 (inv_cdom _ _ _ _ _ _ _ I1 _ _ _ E1)). }
         destruct (main_at _ _ _ _ _ WF1 Hold M1 (h_num h)) as [y [Ey Ny]]; [lia|].
         set (i0 := N.to_nat (h_num old - h_num h)) in *.
         destruct (restrict_current y i0 Lt Ey Ny) as [C1 [C2 C3]].
